@@ -8,6 +8,7 @@ A case is a JSON-able dict  {z: 0..4, progs: [[call token, ...], ...], schedule:
 takeover, 2 = with client_no_context_takeover, 3 = with server_no_context_takeover, 4 = both.
 `fail`: the sendall of that call raises once k chunks are out (TransportFail to the caller)."""
 from __future__ import annotations
+import re
 import random, struct, zlib
 import runner
 import sched
@@ -312,6 +313,100 @@ def canon_real(case, r):
         fl['closing'], fl['closed'], fl['sock'], fl['shut'], '-' if fl['lock'] is None else fl['lock'],
         whole, closes, after, afterw))
     return ' '.join(toks)
+
+
+# ---------------------------------------------------------------------------------------------
+# alignment modulo pure reads: what is compared with the model is the OBSERVABLE behaviour
+
+PURE_READS = ('rd:closing', 'rd:closed', 'rd:sock')
+ALIGN_LIMIT = 24
+
+
+def _is_step_tok(t):
+    return len(t) > 2 and t[0] == 'x' and t[1].isdigit()
+
+
+def split_steps(line_out):
+    """(sync-step tokens, observable tokens) of a canonical line: the wire chunks, compressed-frame books, call results and the END
+    summary are what a user can observe; the `x<t>:<kind>` tokens say through which shared-state accesses it came about"""
+    toks = line_out.split(' ')
+    return [t for t in toks if _is_step_tok(t)], [t for t in toks if not _is_step_tok(t)]
+
+
+def _pure(tok):
+    return tok is not None and tok.split(':', 1)[1] in PURE_READS
+
+
+def realign_batch(items):
+    """items: [(case, r, real_line)] whose model line (the model run on the thread ids of the real sync steps) differs from the real
+    line.  A restructuring of the code that keeps its behaviour can add or drop *reads* of the shared flags / of `_sock` (a value kept
+    in a local, a redundant re-check, a debug line): then the real step log and the model's programs are out of step although the
+    real run is one the model admits.  Here the schedule is repaired read by read - a real read the model's program does not have at
+    that point is dropped from the schedule (a read has no effect on anyone else), a read the model performs there and the real code
+    does not is given to the model's thread - and the OBSERVABLE tokens are compared under the repaired schedule.  When a thread
+    reads the same flag several times in a row, which of these reads is the one the model's single read stands for is not known:
+    strategy `late` drops the later ones (the first value is the one used), strategy `early` drops the earlier ones (the last value
+    is the one used); a case counts as aligned when one of the two gives the real observables.
+    The theorems quantify over every schedule of the model, so a real run whose observables equal those of SOME model schedule is
+    covered by them; a read that mattered (a dropped re-check) shows up as different observables on the racy schedules, which are
+    all still run, and in the oracle.  Returns [(same_observables, edits, model_line_out or None)]."""
+    first = _realign(items, 'late')
+    again = [k for k, (ok, _, _) in enumerate(first) if not ok]
+    if again:
+        for k, res2 in zip(again, _realign([items[k] for k in again], 'early')):
+            if res2[0]:
+                first[k] = res2
+    return first
+
+
+def _realign(items, strategy):
+    st = []
+    for c, r, real_line in items:
+        rs, robs = split_steps(real_line)
+        st.append(dict(case=c, sched=[t for t, _ in r['steps']], rs=rs, robs=robs, edits=0, done=None, out=None))
+    for _ in range(ALIGN_LIMIT + 1):
+        todo = [p for p in st if p['done'] is None]
+        if not todo:
+            break
+        outs = runner.model_run([model_line(p['case'], [(t, None) for t in p['sched']]) for p in todo])
+        for p, out in zip(todo, outs):
+            mm, _peer = strip_peer(out)
+            ms, mobs = split_steps(mm)
+            rs = p['rs']
+            i = next((k for k in range(max(len(ms), len(rs))) if k >= len(ms) or k >= len(rs) or ms[k] != rs[k]), None)
+            if i is None:
+                p['done'] = (mobs == p['robs'])
+                p['out'] = out
+                continue
+            rk = rs[i] if i < len(rs) else None
+            mk = ms[i] if i < len(ms) else None
+            if p['edits'] >= ALIGN_LIMIT:
+                p['done'] = False
+            elif _pure(rk):
+                j = i
+                if strategy == 'early':
+                    # the previous step of the same thread, if it is the same read: drop that one, keep this one
+                    pre = rk.split(':', 1)[0]
+                    prev = next((k for k in range(i - 1, -1, -1) if rs[k].split(':', 1)[0] == pre), None)
+                    if prev is not None and rs[prev] == rk:
+                        j = prev
+                del p['sched'][j]
+                del rs[j]
+                p['edits'] += 1
+            elif _pure(mk):
+                p['sched'].insert(i, int(mk[1:mk.index(':')]))
+                rs.insert(i, mk)
+                p['edits'] += 1
+            else:
+                p['done'] = False
+    return [(bool(p['done']), p['edits'], p['out']) for p in st]
+
+
+def hard_problems(probs):
+    """problems of a real run that make it unusable (a worker died); the others - an access from a source line the AST map does not
+    know, an access kind without a source location - say that the code is shaped differently from what the map expects (every
+    access is recorded by the stand-in objects all the same): reported as a note and a count, not as a disagreement"""
+    return [p for p in probs if not (p.startswith('unmapped ') or p.startswith('no source location found'))]
 
 
 def strip_peer(model_line_out):
@@ -650,6 +745,40 @@ def enumerate_cases(base_cases, model_ok, rng, cap=None):
     return out
 
 
+def same_observables(model_out, real_line):
+    """equal lines, or - after `align_models` replaced the model's output by its run on the repaired schedule - equal observables"""
+    return model_out == real_line or (model_out.startswith('~aligned~ ') and split_steps(model_out[10:])[1] == split_steps(real_line)[1])
+
+
+def align_models(res, pairs, models):
+    """pairs: [(case, real run)], models: the model's outputs on the real step sequences (None = no model).  Where the lines differ, try
+    the alignment modulo pure reads; an output that agrees on the observables after it is returned marked `~aligned~ `."""
+    bad = [i for i, ((c, r), m) in enumerate(zip(pairs, models)) if m is not None and strip_peer(m)[0] != canon_real(c, r)]
+    if not bad:
+        return models
+    models = list(models)
+    fixed = realign_batch([(pairs[i][0], pairs[i][1], canon_real(*pairs[i])) for i in bad])
+    n = 0
+    for i, (ok, edits, out) in zip(bad, fixed):
+        if ok:
+            models[i] = '~aligned~ ' + out
+            n += 1
+            res.count('aligned_modulo_pure_reads_edits_%d' % edits)
+    if n:
+        res.count('cases_compared_after_alignment_modulo_pure_reads', n)
+        note = ('the real step log and the model programs differ in READS of the shared flags / of _sock on some runs; those runs were '
+                'compared with the model on the schedule repaired read by read (thrutil.realign_batch): observables equal')
+        if note not in res.notes:
+            res.notes.append(note)
+    return models
+
+
+def note_soft_problems(res, probs):
+    soft = [p for p in probs if p not in hard_problems(probs)]
+    for p in soft:
+        res.count('code_shape_note: ' + re.sub(r'thread \d+ ', '', p)[:120])
+
+
 def run_and_compare(res, cases, judge, model_ok):
     """run every case on the real code and on the model; record diffs and oracle failures"""
     v = detect_variant()
@@ -668,6 +797,7 @@ def run_and_compare(res, cases, judge, model_ok):
         lines.append(model_line(c, r['steps']))
         idx.append(k)
     models = runner.model_run(lines) if (model_ok and lines) else [None] * len(lines)
+    models = align_models(res, [(cases[k], reals[k]) for k in idx], models)
     seen_cls = {}
     for k, line, m in zip(idx, lines, models):
         c, r = cases[k], reals[k]
@@ -690,6 +820,8 @@ def run_and_compare(res, cases, judge, model_ok):
             # is a change of that mechanism (searched for a failing schedule by the `before-connect` families)
             probs.append('session._lock was replaced by a new lock object after the constructor, at %s' % ', '.join(sorted(set(r['lock_stores']))))
         real_line = canon_real(c, r)
+        note_soft_problems(res, probs)
+        probs = hard_problems(probs)
         if probs:
             res.diffs.append(dict(input=c, real=real_line[-1500:], model='(harness) ' + '; '.join(probs)[:800]))
         res.traces_validated += 1
@@ -702,7 +834,7 @@ def run_and_compare(res, cases, judge, model_ok):
             res.count('chunks_per_sendall_%s' % (c['n'] if not isinstance(c['n'], dict) else 'mixed'))
         if m is not None:
             mm, peer = strip_peer(m)
-            if mm != real_line:
+            if not same_observables(mm, real_line):
                 res.diffs.append(dict(input=c, line=line, real=real_line[-2500:], model=mm[-2500:]))
             elif peer == 'ok' and any(cls in ('compress-outside-lock', 'receive-touches-compressor') for cls, _ in fails):
                 # the abstract peer of the model says every block is decodable, zlib disagrees
@@ -711,7 +843,7 @@ def run_and_compare(res, cases, judge, model_ok):
         # a recorded finding covers exactly the racy windows the present-variant model reproduces
         # (proved as `fails_*` / `compress_fails_*` in Lean): a failure on a schedule where the real
         # code and the model disagree is a different violation and gets its own class
-        same_as_model = (m is None) or (strip_peer(m)[0] == real_line)
+        same_as_model = (m is None) or same_observables(strip_peer(m)[0], real_line)
         if not same_as_model:
             fails = [(cls + ':not-in-model', what) for cls, what in fails]
         for cls, what in fails:
